@@ -52,6 +52,27 @@ def check_list(mido, d, msgs, acc, idx_desc):
               and all(type(m) is mido.Message and m.type == 'sysex'
                       for m in got)
               and [sx(m) for m in got] == want)
+        if ok and got:
+            # history: change what was returned, read the same file again;
+            # then overwrite it with a shorter list
+            try:
+                got[0].data = (0x11, 0x22)
+                again = mido.read_syx_file(fn)
+                if [sx(m) for m in again] != want:
+                    acc.violation('reread-differs',
+                                  f'messages {idx_desc}: second read of the '
+                                  f'same file gave {again!r}', case)
+                shorter = [m for m in msgs if m.type == 'sysex'][:1]
+                mido.write_syx_file(fn, shorter, plaintext=plaintext)
+                after = mido.read_syx_file(fn)
+                if [sx(m) for m in after] != [sx(m) for m in shorter]:
+                    acc.violation('overwrite-keeps-old-content',
+                                  f'messages {idx_desc} then {len(shorter)} '
+                                  f'message written to the same file: read '
+                                  f'{after!r}', case)
+            except Exception as e:
+                acc.violation(f'reread-raises/{type(e).__name__}', f'{e!r}',
+                              case)
         if not ok:
             kind = ('empty-payload' if () in want else
                     'no-sysex' if not want else 'content')
